@@ -522,15 +522,56 @@ for node in it: nodes
         key_model_ok::<T>(),
     ensures
         // [C01.new_from_nodes_and_edges.is_new_then_nodes_then_edges]
-        exists|g1: Graph<T, A>, g2: Graph<T, A>, r2: Result<(), Error>| {
-            &&& g1.wf_nodes() && g1.wf_estore() && g1.edges_map@.len() == 0 && g1.specs == specs
-            &&& forall|j: int| 0 <= j < nodes@.len() ==> g1.knows(#[trigger] nodes@[j].name)
-            &&& #[trigger] batch_rel(g1, edges_of(edges@), g2, r2)
-            &&& (r2.is_ok() ==> r.is_ok() && r.unwrap() == g2)
-            &&& (r2.is_err() ==> r.is_err())
-        },
+        nfne_rel(node_names_of(nodes@), edges_of(edges@), specs, r),
         // [C01.new_from_nodes_and_edges.result_wf]
         r.is_ok() ==> r.unwrap().wf_nodes() && r.unwrap().wf_estore() && r.unwrap().wf_rows() && r.unwrap().specs == specs,
+//@ end
+
+// A5 / R-ext for reverse(): get_all_nodes (slice iter collect) and the two clone / map pipelines
+//@ extract fn src/graph/query.rs get_all_nodes ty=Graph nobody
+//@ head
+    #[verifier::external_body]
+//@ rewrite
+-> Vec<&Arc<Node<T, A>>>
+//@ with
+-> (r: Vec<&Arc<Node<T, A>>>)
+//@ spec
+    ensures
+        r@.len() == self.n(),
+        forall|i: int| 0 <= i < r@.len() ==> **(#[trigger] r@[i]) == *self.nodes_vec@[i],
+//@ end
+
+//@ extract fn src/graph/convert.rs reverse props=C06,C20 ty=Graph
+//@ rewrite
+-> Result<Graph<T, A>, Error>
+//@ with
+-> (r: Result<Graph<T, A>, Error>)
+//@ rewrite
+self.get_all_nodes().into_iter().cloned().collect();
+//@ with
+vclone_nodes(self.get_all_nodes());
+//@ rewrite
+self
+            .get_all_edges()
+            .into_iter()
+            .map(|edge| edge.clone().reversed().into())
+            .collect();
+//@ with
+vreverse_edges(self.get_all_edges());
+//@ spec
+    requires
+        key_model_ok::<T>(),
+    ensures
+        // [C06.reverse.guard]
+        !self.specs.directed ==> is_err_kind(r, ErrorKind::WrongMethod),
+        // [C06.reverse.rebuilds_from_same_nodes_and_flipped_edges]
+        self.specs.directed ==> nfne_rel(node_names_of(self.nodes_vec@), Seq::new(self.all_edges_seq().len(), |i: int| spec_reversed(self.all_edges_seq()[i])), self.specs, r),
+        self.specs.directed && r.is_ok() ==> r.unwrap().wf_nodes() && r.unwrap().wf_estore() && r.unwrap().wf_rows() && r.unwrap().specs == self.specs,
+//@ before Graph::new_from_nodes_and_edges(new_nodes, new_edges, self.specs.clone())
+        proof {
+            assert(node_names_of(new_nodes@) =~= node_names_of(self.nodes_vec@));
+            assert(edges_of(new_edges@) =~= Seq::new(self.all_edges_seq().len(), |i: int| spec_reversed(self.all_edges_seq()[i])));
+        }
 //@ end
 
 //@ extract fn src/graph/ensure.rs ensure_directed props=C02,C20 ty=Graph
@@ -715,6 +756,17 @@ vcast_usize_f64(self.nodes_vec.len())
 //@ end
 }
 
+
+// R-ext helpers of reverse() (A5)
+#[verifier::external_body]
+pub fn vclone_nodes<T: Send + Sync, A>(v: Vec<&Arc<Node<T, A>>>) -> (r: Vec<Arc<Node<T, A>>>)
+    ensures r@.len() == v@.len(), forall|i: int| 0 <= i < r@.len() ==> *(#[trigger] r@[i]) == **v@[i],
+{ v.into_iter().cloned().collect() }
+#[verifier::external_body]
+pub fn vreverse_edges<T, A>(v: Vec<&Arc<Edge<T, A>>>) -> (r: Vec<Arc<Edge<T, A>>>)
+    where T: Eq + Clone + PartialOrd + Ord + Hash + Send + Sync + Display, A: Clone,
+    ensures r@.len() == v@.len(), forall|i: int| 0 <= i < r@.len() ==> *(#[trigger] r@[i]) == spec_reversed(**v@[i]),
+{ v.into_iter().map(|edge| edge.clone().reversed().into()).collect() }
 
 // ---- case split used to verify add_edge (one Verus run per case) ----
 pub open spec fn add_edge_case<T: Eq + PartialOrd + Send + Sync, A: Clone>(g: Graph<T, A>, directed: bool, multi: bool) -> bool {
